@@ -268,6 +268,50 @@ def clause5(P, res):
         res.violated(rid, "ring-index-sites", f"expected >= 2 bounds-checked slot accesses in rings with mask+capacity, found {n}")
 
 
+# who may destroy / move out a payload that lives in a MaybeUninit cell (single-destroyer discipline): body -> reason
+PAYLOAD_DESTROYERS = {
+    "fibre::<spmc::ring_buffer::Slot<T> as core::ops::drop::Drop>::drop": "teardown: the ring is gone, an odd sequence marks an initialised slot",
+    "fibre::spmc::ring_buffer::SpmcShared::<T>::try_send_internal": "the single producer drops the previous lap's value in place before overwriting the slot",
+    "fibre::spmc::ring_buffer::SpmcShared::<T>::write_batch_unchecked": "same, batch form",
+    "fibre::<oneshot::core::OneShotShared<T> as core::ops::drop::Drop>::drop": "teardown of an unreceived value (state SENT)",
+    "fibre::oneshot::Receiver::<T>::close_internal": "receiver gone: takes the value under the SENT->TAKEN transition",
+    "fibre::oneshot::core::OneShotShared::<T>::decrement_senders": "last sender gone with a value nobody will take (state machine decides)",
+    "fibre::oneshot::core::OneShotShared::<T>::try_recv": "the receive itself (SENT->TAKEN CAS)",
+    "fibre::oneshot::core::OneShotShared::<T>::poll_recv": "the receive itself (SENT->TAKEN CAS)",
+    "fibre::internal::unsynchronized_ring::UnsynchronizedRingBuffer::<T>::pop": "single-threaded ring behind the mpmc mutex: the pop",
+    "fibre::spsc::shared::Ring::<T>::pop": "the single consumer's pop",
+    "fibre::spsc::shared::Ring::<T>::read_batch": "the single consumer's batch pop",
+    "fibre::<spsc::shared::Ring<T> as core::ops::drop::Drop>::drop": "teardown drain",
+    "fibre::<internal::unsynchronized_ring::UnsynchronizedRingBuffer<T> as core::ops::drop::Drop>::drop": "teardown drain",
+    "fibre::internal::unsynchronized_ring::UnsynchronizedRingBuffer::<T>::clear": "drain under the owner's lock",
+}
+
+
+def clause7(P, res):
+    rid = "C09-7"
+    res.rule(rid, "one destroyer per payload cell: only the listed functions (the consumer's pop, the single producer's overwrite, teardown) move a value out of or destroy a "
+                  "MaybeUninit payload cell (assume_init_read / assume_init_drop / drop_in_place / ptr::read of a cell); a new function that does is a second destroyer that "
+                  "races the existing one (e.g. 'the last receiver frees buffered items' while a producer is mid-write) and must be argued before it is admitted")
+    n = 0
+    for b in P.bodies.values():
+        if not b.id.startswith("fibre::") or "::tests::" in b.id or not common.in_scope(b.id):
+            continue
+        hits = [e for e in b.calls() if e.method in ("assume_init_drop", "assume_init_read", "assume_init") and "MaybeUninit" in e.callee]
+        hits += [e for e in b.calls() if e.method == "drop_in_place" and e.args and re.search(r"(value|buf|buffer|slot|data)", b.path_of_operand(e.args[0]))]
+        if not hits:
+            continue
+        n += 1
+        root = b.root or b.id
+        if b.id in PAYLOAD_DESTROYERS or root in PAYLOAD_DESTROYERS:
+            res.holds(rid, b.id, PAYLOAD_DESTROYERS.get(b.id) or PAYLOAD_DESTROYERS[root], where=hits[0].loc, nontrivial=False)
+        else:
+            res.unclassified(rid, b.id, f"{b.name} destroys or moves out a payload cell at {hits[0].loc} but is not one of the admitted destroyers: a second path that frees the same "
+                             "cell can run concurrently with the first (double drop) unless their exclusion is argued — add a row with that argument, or remove the path",
+                             where=hits[0].loc)
+    if n < 6:
+        res.violated(rid, "destroyer-sites", f"expected >= 6 functions that destroy/move out MaybeUninit payload cells, found {n}")
+
+
 def run(P, ctx):
     res = Result("C09")
     res.extra["explanation"] = "Ownership shapes: storage owners drain on drop, forget-conversions move each owning field once, recovered items re-enter."
@@ -276,5 +320,6 @@ def run(P, ctx):
     clause4(P, res)
     clause5(P, res)
     clause6(P, res, owners or [])
+    clause7(P, res)
     res.notes.append("take-once cell discipline (MaybeUninit reads guarded by the publishing state) is decided under C01-3 / C07-2 and not repeated here")
     return res
